@@ -24,13 +24,17 @@ RULE = ("random binary datasets n<=30, 2..4 groups, one feature with 2..5 distin
         "absent from an event). For every column: the predictor attains min over H of err + lambda.gamma (value equality), "
         "objectives_/gammas_ equal what the predictor's predictions really have, best_idx_ attains the minimum trade-off, predict / "
         "predict_proba equal the selected predictor's. distinct = distinct (moment, bound, n, #groups, grid_size, limit, weight, "
-        "class); non-trivial = >=2 distinct predictors' prediction vectors among the trained ones.")
+        "class); non-trivial = >=2 distinct predictors' prediction vectors among the trained ones. pure class: 2..3 label-pure groups of "
+        "equal size (DemographicParity / ErrorRateParity), grid_size in 2..20, grid_limit in {0.5,1,2,3,4}: some lattice points make "
+        "every relabelled sample weight exactly zero (counted as event all_zero_weight_grid_points). In a third of the cases the fitted "
+        "estimator is re-configured with set_params(grid_size, grid_limit) and fitted again; the second fit is checked the same way.")
 ASSUMPTIONS = ["exact base learner over H (harness)", "ties in the arg-min are fine (values compared)"]
 
 
 def cases(tier, seed):
     k = 160 if tier == "quick" else 5000
-    return [("strict", i) for i in range(k)] + [("sparse", i) for i in range(k // 3)] + [("bgl", i) for i in range(k // 3)]
+    return ([("strict", i) for i in range(k)] + [("sparse", i) for i in range(k // 3)] + [("bgl", i) for i in range(k // 3)]
+            + [("pure", i) for i in range(k // 2)])
 
 
 def grid_checks(ctx, lam, grid_size, grid_limit, wit, strict, absent_pair):
@@ -56,13 +60,24 @@ def run_case(cls, key, seed, ctx):
         return run_bgl(ctx, rng, red)
     kind = RM.PARITY[int(rng.integers(0, 5))]
     bound = ML.BOUNDS[int(rng.integers(0, len(ML.BOUNDS)))]
-    strict = cls == "strict"
-    ds = ML.make_dataset(rng, nmin=8, nmax=30, kmax=4, feature_levels=int(rng.integers(2, 6)), control=(False if strict else bool(rng.random() < 0.7)),
-                         both_labels_per_group=strict)
+    strict = cls in ("strict", "pure")
+    if cls == "pure":
+        # label-pure groups of equal size: at some lattice points the constraint weights cancel the objective weights exactly, so the
+        # relabelled problem has ALL-ZERO sample weights (every hypothesis is a best response; fit must still train one predictor)
+        kind = gen.pick(rng, ["DemographicParity", "ErrorRateParity"])  # one event: every group occurs in it
+        k, m = int(rng.integers(2, 4)), int(rng.integers(2, 6))
+        names = gen.pick(rng, [["a", "b", "c"], [0, 1, 2]])
+        g = [names[i] for i in range(k) for _ in range(m)]
+        yv = [i % 2 for i in range(k) for _ in range(m)]
+        perm = rng.permutation(k * m)
+        ds = ML.Dataset(rng.integers(0, int(rng.integers(2, 5)), size=(k * m, 1)).astype(float)[perm], [yv[i] for i in perm], [g[i] for i in perm], None)
+    else:
+        ds = ML.make_dataset(rng, nmin=8, nmax=30, kmax=4, feature_levels=int(rng.integers(2, 6)),
+                             control=(False if strict else bool(rng.random() < 0.7)), both_labels_per_group=strict)
     moment, ratio, cbound = ML.make_moment(kind, bound)
     hclass = gen.pick(rng, ["cells", "thresholds"])
-    gs = int(gen.pick(rng, [2, 3, 5, 8, 13, 20, 33, 60]))
-    gl = float(gen.pick(rng, [0.5, 2.0, 5.0]))
+    gs = int(gen.pick(rng, [2, 3, 5, 8, 13, 20, 33, 60] if cls != "pure" else [2, 3, 4, 5, 7, 8, 9, 13, 20]))
+    gl = float(gen.pick(rng, [0.5, 2.0, 5.0] if cls != "pure" else [0.5, 1.0, 2.0, 3.0, 4.0]))
     cw = float(gen.pick(rng, [0.0, 0.3, 0.5, 1.0]))
     composite = bool(rng.random() < 0.25)
     if composite:
@@ -78,45 +93,65 @@ def run_case(cls, key, seed, ctx):
     kw = {"sensitive_features": g}
     if c is not None:
         kw["control_features"] = c
-    est.fit(X, y, **kw)
-    wit = {"moment": kind, "bound": list(bound), "y": ds.y, "groups": ds.g, "control": ds.c, "x": ds.X[:, 0].tolist(), "hclass": hclass,
-           "grid_size": gs, "grid_limit": gl, "constraint_weight": cw, "pipeline_estimator": composite}
-    mom = est.constraints
-    mapping, problems = ML.align_index(mom, kind, ds, ratio, rng)
-    if problems:
-        ctx.violate("index_does_not_match_definition:" + problems[0][0], detail=problems[0][1], wit=wit)
-        return
-    ref_entries = RM.entries(kind, ds.y, ds.g, ds.c)
-    events = {e for (_, e, _) in ref_entries}
-    absent_pair = len({(e, a) for (_, e, a) in ref_entries}) < len(events) * len(set(ds.g))
-    lam = est.lambda_vecs_
-    grid_checks(ctx, lam, gs, gl, wit, strict, absent_pair)
-    tab = RS.Table(kind, ds, ratio, cbound, ExactLearner.hypotheses(ds.X[:, 0], hclass))
-    preds = []
-    ok = ctx.check(len(est.predictors_) == lam.shape[1] == len(est.objectives_) == est.gammas_.shape[1], "fitted_attributes_differ_in_length",
-                   predictors=len(est.predictors_), lambdas=int(lam.shape[1]), objectives=len(est.objectives_), gammas=int(est.gammas_.shape[1]), wit=wit)
-    if not ok:
-        return
-    for pos, col in enumerate(lam.columns):
-        pred = np.asarray(est.predictors_[pos].predict(ds.X), float)
-        preds.append(tuple(pred.tolist()))
-        e_h, g_h = tab.of(pred)
-        lv = tab.lam_vec({mapping[e]: float(lam[col][e]) for e in mom.index})
-        val = e_h + float(g_h @ lv)
-        best = float((tab.err + tab.G @ lv).min())
-        ctx.ev("best_responses_checked")
-        ctx.check(val <= best + 1e-9, "predictor_is_not_a_best_response_to_its_multiplier_vector", column=repr(col), value=val, minimum_over_class=best,
-                  lam={repr(k): float(v) for k, v in lam[col].items() if v != 0}, wit=wit)
-        ctx.ev("recorded_values_compared", 1 + len(tab.keys))
-        ctx.check(close(est.objectives_[pos], e_h, 1e-10, 1e-12), "recorded_objective_differs_from_the_predictors_error", column=repr(col),
-                  recorded=float(est.objectives_[pos]), real=e_h, wit=wit)
-        gcol = est.gammas_[col]
-        bad = [(repr(e), float(gcol[e]), float(g_h[tab.keys.index(mapping[e])])) for e in mom.index
-               if not close(gcol[e], g_h[tab.keys.index(mapping[e])], 1e-10, 1e-12)]
-        ctx.check(not bad, "recorded_gamma_differs_from_the_predictors_constraint_values", column=repr(col), mismatches=bad[:4], wit=wit)
-    ctx.mark([cls, kind, list(bound), ds.n, len(set(ds.g)), gs, gl, cw, hclass, composite], len(set(preds)) >= 2,
-             sample={k: wit[k] for k in ("moment", "bound", "y", "groups", "control", "x", "grid_size", "grid_limit", "constraint_weight")})
-    selection_and_delegation(ctx, est, lam, ds.X, cw, wit, proba=True)
+    # a used estimator is re-configured with set_params and fitted again in a third of the cases (hyper-parameter sweeps do this):
+    # the second fit must honour the grid_size / grid_limit it is configured with at that time
+    rounds = [("", gs, gl)]
+    if rng.random() < 0.33:
+        rounds.append((":after_set_params_and_refit", int(gen.pick(rng, [g_ for g_ in (2, 3, 4, 6, 9, 14, 21) if g_ != gs])),
+                       float(gen.pick(rng, [l_ for l_ in (0.5, 1.0, 2.0, 3.0, 5.0) if l_ != gl]))))
+    for sfx, gs, gl in rounds:
+        if sfx:
+            est.set_params(grid_size=gs, grid_limit=gl)
+            ctx.ev("refits_after_set_params")
+        est.fit(X, y, **kw)
+        wit = {"moment": kind, "bound": list(bound), "y": ds.y, "groups": ds.g, "control": ds.c, "x": ds.X[:, 0].tolist(), "hclass": hclass,
+               "grid_size": gs, "grid_limit": gl, "constraint_weight": cw, "pipeline_estimator": composite,
+               "history": "set_params(grid_size, grid_limit) on the fitted estimator, then fit again" if sfx else "first fit"}
+        mom = est.constraints
+        mapping, problems = ML.align_index(mom, kind, ds, ratio, rng)
+        if problems:
+            ctx.violate("index_does_not_match_definition:" + problems[0][0], detail=problems[0][1], wit=wit)
+            continue
+        ref_entries = RM.entries(kind, ds.y, ds.g, ds.c)
+        events = {e for (_, e, _) in ref_entries}
+        absent_pair = len({(e, a) for (_, e, a) in ref_entries}) < len(events) * len(set(ds.g))
+        lam = est.lambda_vecs_
+        grid_checks(ctx, lam, gs, gl, wit, strict, absent_pair)
+        tab = RS.Table(kind, ds, ratio, cbound, ExactLearner.hypotheses(ds.X[:, 0], hclass))
+        preds = []
+        ok = ctx.check(len(est.predictors_) == lam.shape[1] == len(est.objectives_) == est.gammas_.shape[1], "fitted_attributes_differ_in_length" + sfx,
+                       predictors=len(est.predictors_), lambdas=int(lam.shape[1]), objectives=len(est.objectives_), gammas=int(est.gammas_.shape[1]), wit=wit)
+        if not ok:
+            continue
+        for pos, col in enumerate(lam.columns):
+            pred = np.asarray(est.predictors_[pos].predict(ds.X), float)
+            preds.append(tuple(pred.tolist()))
+            if cls == "pure":
+                w_ref = RM.signed_weights(kind, ds.y, ds.g, {mapping[e]: float(lam[col][e]) for e in mom.index}, ratio, ds.c)
+                if kind != "ErrorRateParity":  # the error objective is added unless it lies in the span of the constraint
+                    w_ref = w_ref + RM.error_weights(ds.y)
+                if bool(np.all(np.abs(w_ref) < 1e-12)):
+                    ctx.ev("all_zero_weight_grid_points")
+            e_h, g_h = tab.of(pred)
+            lv = tab.lam_vec({mapping[e]: float(lam[col][e]) for e in mom.index})
+            val = e_h + float(g_h @ lv)
+            best = float((tab.err + tab.G @ lv).min())
+            ctx.ev("best_responses_checked")
+            ctx.check(val <= best + 1e-9, "predictor_is_not_a_best_response_to_its_multiplier_vector" + sfx, column=repr(col), value=val, minimum_over_class=best,
+                      lam={repr(k): float(v) for k, v in lam[col].items() if v != 0}, wit=wit)
+            ctx.ev("recorded_values_compared", 1 + len(tab.keys))
+            ctx.check(close(est.objectives_[pos], e_h, 1e-10, 1e-12), "recorded_objective_differs_from_the_predictors_error" + sfx, column=repr(col),
+                      recorded=float(est.objectives_[pos]), real=e_h, wit=wit)
+            gcol = est.gammas_[col]
+            bad = [(repr(e), float(gcol[e]), float(g_h[tab.keys.index(mapping[e])])) for e in mom.index
+                   if not close(gcol[e], g_h[tab.keys.index(mapping[e])], 1e-10, 1e-12)]
+            ctx.check(not bad, "recorded_gamma_differs_from_the_predictors_constraint_values" + sfx, column=repr(col), mismatches=bad[:4], wit=wit)
+        if not sfx:
+            ctx.mark([cls, kind, list(bound), ds.n, len(set(ds.g)), gs, gl, cw, hclass, composite, len(rounds)], len(set(preds)) >= 2,
+                     sample={k: wit[k] for k in ("moment", "bound", "y", "groups", "control", "x", "grid_size", "grid_limit", "constraint_weight")})
+        selection_and_delegation(ctx, est, lam, ds.X, cw, wit, proba=True)
+
+
 
 
 def selection_and_delegation(ctx, est, lam, X, cw, wit, proba):
